@@ -70,6 +70,10 @@ def collision_family():
         "variant_inline~key": {"definitions": {"Foo": {"oneOf": [inl, {"type": "array", "items": {"type": "integer"}}]}, "foo_variant0": zz}},
         "member_enum_inline~key": {"definitions": {"Foo": _obj({"bar": {"type": "string", "enum": ["a", "b"]}}), "foo_bar": zz}},
     }
+    # ... and a definition whose in-line member / item carries the definition's OWN name as its title
+    meets["own_title_member~key"] = {"definitions": {"Pet": _obj({"tag": dict(_obj({"label": {"type": "string"}}), title="Pet"), "n": {"type": "integer"}})}}
+    meets["own_title_items~key"] = {"definitions": {"Pets": {"type": "array", "items": dict(_obj({"label": {"type": "string"}}), title="Pets")}}}
+    meets["own_title_variant~key"] = {"definitions": {"Shape": {"oneOf": [dict(_obj({"r": {"type": "integer"}}, ["r"]), title="Shape"), {"type": "array", "items": {"type": "integer"}}]}}}
     for mn, doc in meets.items():
         out.append({"id": "meet[%s]" % mn, "doc": doc, "target": None, "shape": "meet:" + mn.split("~")[0], "ctx": "root" if "title" in doc else "defs", "family": "collision",
                     "sup": False})   # an error naming the clash is a correct answer; two items of one name are not
@@ -161,7 +165,7 @@ def cases(tier, seed):
     from . import C06, C07
     for c in C06.cases(tier, seed):
         out.append({"id": "default:" + c["id"], "doc": c["doc"], "target": None, "settings": c["settings"], "family": "default",
-                    "shape": "default:" + c["kind"], "ctx": c["pos"], "default_valid": c["valid"] and c.get("src") != "universe+zz"})   # a default with undeclared members may be declined
+                    "shape": "default:" + c["kind"], "ctx": c["pos"], "default_valid": c["valid"] and c.get("src") not in ("universe+zz", "float-spelled")})   # a default with undeclared members may be declined
     for c in C07.cases("quick", seed):
         if c["n"] == 1:
             out.append({"id": "graph:" + c["key"], "doc": c["doc"], "target": "D0", "settings": S_BUILDER, "family": "cycle", "shape": "graph", "ctx": "n1",
